@@ -26,7 +26,7 @@ func init() {
 			{Name: "findroot", Variant: "plain", N: core.Tiered(3000, 1000000), Run: c18Root},
 			{Name: "piecewise", Variant: "plain", N: core.Tiered(600, 150000), Run: c18Piecewise},
 		},
-		RequireTags: func(string) []string { return []string{"root:converged", "pw:outside", "pw:nan", "pw:knot", "pw:narrow-segment", "pw:scaled-units"} },
+		RequireTags: func(string) []string { return []string{"root:converged", "pw:outside", "pw:nan", "pw:knot", "pw:narrow-segment", "pw:scaled-units", "root:both-ends-within-tolerance"} },
 		ExpectTags:  func(string) []string { return []string{"root:budget-exhausted"} },
 	})
 }
@@ -144,13 +144,19 @@ func c18Root(c *core.Ctx) {
 	if c.R.Bool(0.2) {
 		maxIt = c.R.IntRange(1, 4)
 	}
+	bothEnds := c.R.Bool(0.1)
 	c.Begin(map[string]interface{}{"model": "FindRoot", "family": tf.name, "min": tf.min, "max": tf.max, "guess": guess, "guess_kind": guessKind,
-		"derivative": []string{"nil", "correct", "wrong"}[derivMode], "tolerance": tol, "convergenceLimit": conv, "maxIterations": maxIt, "seed_note": "function parameters are regenerated from the case PRNG"})
+		"derivative": []string{"nil", "correct", "wrong"}[derivMode], "tolerance": tol, "tolerance_raised_above_both_ends": bothEnds, "convergenceLimit": conv, "maxIterations": maxIt, "seed_note": "function parameters are regenerated from the case PRNG"})
 	c.Class(fmt.Sprintf("%s/g%d/d%d/it%d", tf.name, guessKind, derivMode, maxIt/10))
 	fmin, fmax := tf.f(tf.min), tf.f(tf.max)
 	if !(fmin <= 0 && fmax >= 0) {
 		c.Trivial()
 		return // precondition not met by this draw
+	}
+	if bothEnds && (fmin != 0 || fmax != 0) {
+		// a coarse tolerance (or a narrow bracket): BOTH ends of the bracket already satisfy it
+		tol = math.Max(math.Abs(fmin), math.Abs(fmax)) * c.R.Range(1.5, 10)
+		c.Tag("root:both-ends-within-tolerance")
 	}
 	var evals []float64
 	wrapped := func(x float64) float64 {
